@@ -9,7 +9,7 @@ from rules.c20 import pattern_in_lib
 PROP = 'C17'
 LEVEL = 'other'
 EXPLANATION = ('R17.1: KeyValue::VisitArgs applies the visitor to every validator exactly once, in declaration order (per instantiation), and the '
-               'visitor forwards a returned message to AddValidationError(path, message). R17.2: AddValidationError appends to the list of an '
+               'visitor forwards a returned message to AddValidationError(path, message), both built inside that visitor call (R17.5). R17.2: AddValidationError appends to the list of an '
                'existing path / creates a one-element list for a new path and triggers the early throw by comparing the number of failing fields '
                'with maxValidationErrors under "> 0". R17.3: OnFinishSerialization throws ValidationException(moved map) iff the map is not empty, '
                'and every LoadObject/SaveObject entry point reaches it after the serialization. R17.4: the built-in validators Required, Range, '
@@ -138,6 +138,54 @@ def run(prog, rep):
                 rep.ok('R17.1', 'visitor forwards message|' + f.id[-60:], nontrivial=False)
             else:
                 rep.finding('R17.1', 'visitor forwards message', f.loc(), 'the validation visitor does not pass a returned message to AddValidationError', func=f.id)
+
+    # ---------------------------------------------------------------- R17.5 every report carries the field's own path and message
+    rep.rule('R17.5', 'validation visitor: both arguments of AddValidationError are built inside the visitor call - every std::move there moves a '
+                      'local of the visitor (not storage shared by the validators of the field), and the path comes from GetPath()', floor=4)
+    for f in sorted(prog.funcs.values(), key=lambda x: x.id):
+        if f.sym['kind'] != 'lambda' or 'key_value_proxy.h' not in f.file:
+            continue
+        adds = [y for y in f.walk() if y['k'] == 'CXXMemberCallExpr' and (f.callee(y) or {}).get('n') == 'AddValidationError']
+        if not adds:
+            continue
+        rep.touch(f)
+        local = set()
+        inits = {}
+        for x in f.walk():
+            for dcl in x.get('decls', []) or []:
+                local.add(dcl['d'])
+                if x.get('c'):
+                    inits[dcl['d']] = x['c'][0]
+            if x['k'] == 'IfStmt':
+                v = child(x, 'var')
+                if v is not None:
+                    for dcl in v.get('decls', []) or []:
+                        local.add(dcl['d'])
+        for call in adds:
+            bad = None
+            for a in call['c'][1:]:
+                for m in f.walk(a):
+                    if m['k'] == 'CallExpr' and (f.callee(m) or {}).get('q') == 'std::move':
+                        refs = [r for r in f.walk(m['c'][1]) if r['k'] == 'DeclRefExpr' and r.get('dk') in ('Var', 'ParmVar', None)]
+                        if refs and refs[0].get('d') not in local:
+                            bad = 'moves from "%s", which lives outside the visitor call (shared by all validators of the field): the second failing ' \
+                                  'validator reports a moved-from value' % refs[0].get('n')
+            patharg = call['c'][1] if len(call['c']) > 1 else None
+            fresh = False
+            if patharg is not None:
+                if any(x['k'] == 'CXXMemberCallExpr' and (f.callee(x) or {}).get('n') == 'GetPath' for x in f.walk(patharg)):
+                    fresh = True
+                for r in f.walk(patharg):
+                    if r['k'] == 'DeclRefExpr' and r.get('d') in inits and any(x['k'] == 'CXXMemberCallExpr' and (f.callee(x) or {}).get('n') == 'GetPath'
+                                                                                   for x in f.walk(inits[r['d']])):
+                        fresh = True
+            if bad is None and not fresh:
+                bad = 'the path argument is not built from GetPath() inside the visitor call'
+            site = 'visitor|' + f.id[-50:]
+            if bad:
+                rep.finding('R17.5', 'visitor|report arguments', f.loc(call), 'validation visitor: AddValidationError %s' % bad, func=f.id)
+            else:
+                rep.ok('R17.5', site + '|' + f.loc(call), nontrivial=False)
 
     # ---------------------------------------------------------------- R17.2
     fs = [f for f in prog.funcs.values() if f.q == 'BitSerializer::SerializationContext::AddValidationError']
